@@ -19,7 +19,7 @@ import sympy as sp
 from sympy.core.function import AppliedUndef
 
 from ..core import AnalysisError, Report
-from ..fx import Closure, Interp, Model, Opaque, RaisedInCode, UFunc, Unsupported, Vec, WholeArr
+from ..fx import Closure, Interp, Model, Opaque, RaisedInCode, UFunc, Unsupported, Vec, WholeArr, to_py
 from ..index import const_value, dotted, get_index
 from ..kernels import read_config_defaults, std_overrides
 
@@ -488,6 +488,52 @@ def check_expression_pde(rep: Report, ix):
         rep.oblige(f"expression-PDE ({impl}): rhs is called in signature order and bc_args['t'] is the current time", ok, detail)
         if not ok:
             rep.violation("C10.rhs-call-order", f"{g.ref}.rhs_func::{impl}", f"compiled expression is called with {detail['call']} for signature {signature}; every variable, `t`, `none` and `bc_args` (with bc_args['t'] = t) must be passed at its own position")
+        # ---- (3b) coordinates: an axis name in the signature receives the cell coordinates of *that* grid axis
+        import itertools as _it
+
+        for axes in (["x", "y"], ["r", "z"], ["x", "y", "z"]):
+            for used in [set(c) for r in range(1, len(axes) + 1) for c in _it.combinations(axes, r)]:
+                it2 = Interp(ix, overrides=std_overrides(ix, cfg))
+                it2.overrides["NumbaDict"] = dict
+                calls2 = []
+                expr2 = Model(
+                    "expr",
+                    {
+                        "copy": None,
+                        "depends_on": lambda name, used=used: name in used,
+                        "vars": ["u", "t", *sorted(used)],
+                        "get_function": lambda **k: (lambda *a: calls2.append(a) or sp.Symbol("result")),
+                    },
+                )
+                expr2._attrs["copy"] = lambda e=expr2: e
+                pde2 = Model("pde", {"_rhs_expr": {"u": expr2}, "variables": ("u",), "_logger": logger, "_add_operators_to_expr": lambda *a, **k: None}, cls=cls)
+                coords = Model("cell_coords", {"__getitem__": lambda key: sp.Symbol(f"COORD{to_py([k for k in key if k is not Ellipsis][-1])}")})
+                grid2 = Model("grid", {"axes": list(axes), "num_axes": len(axes), "cell_coords": coords})
+                backend2 = Model("backend", {"name": impl, "implementation": impl, "compile_function": lambda fn, **k: fn, "numpy_to_native": lambda x: x})
+                try:
+                    rhs2 = it2.call(it2.getattr(pde2, "_compile_rhs_single"), ("u", {}, Model("state", {"grid": grid2})), {"backend": backend2})
+                    it2.call(rhs2, (sp.Symbol("U"), T), {})
+                except (Unsupported, RaisedInCode) as e:
+                    raise AnalysisError(f"{g.ref} [axes {axes}, used {sorted(used)}]: {e}") from e
+                sig2 = tuple(expr2._attrs["vars"])
+                bad = None
+                if not calls2 or len(calls2[0]) != len(sig2):
+                    bad = f"called with {len(calls2[0]) if calls2 else 0} arguments for signature {sig2}"
+                else:
+                    for k, name in enumerate(sig2):
+                        if name in axes and calls2[0][k] != sp.Symbol(f"COORD{axes.index(name)}"):
+                            bad = f"the symbol `{name}` (grid axis {axes.index(name)}) receives `{calls2[0][k]}`"
+                            break
+                    missing = [c for c in used if c not in sig2]
+                    if missing and bad is None:
+                        bad = f"used coordinates {missing} are not in the signature {sig2}"
+                rep.oblige(f"expression-PDE ({impl}): axes {axes}, expression uses {sorted(used)}: each coordinate symbol gets the cell coordinates of its own axis", bad is None, bad)
+                if bad:
+                    rep.violation(
+                        "C10.rhs-call-order",
+                        f"{g.ref}::coordinates::{impl}",
+                        f"grid axes {axes}, expression depending on {sorted(used)}: {bad} (COORD<i> = cell_coords[..., i]); the compiled rate evaluates the expression at the coordinates of another axis",
+                    )
 
 
 
